@@ -48,6 +48,7 @@ def main():
                                     env=dict(os.environ, VERIF_REPO=wt, VERIF_EVIDENCE_DIR=wt + '/_evidence'),
                                     capture_output=True, text=True)   # evidence of a run against a patched copy is not evidence
                 lines = [l for l in rc.stdout.splitlines() if l.startswith(('VIOLATION', '  key=', 'MACHINERY', 'KNOWN'))]
+                lines.sort(key=lambda l: l.startswith('KNOWN'))   # verdict lines first
                 out[f'check_{c}'] = {'exit': rc.returncode, 'wall_s': round(time.time() - t0), 'lines': lines[:12]}
     finally:
         sh(f'git -C /repo worktree remove --force {wt}')
